@@ -38,11 +38,14 @@ def src(f, k, base, saveB=True):
     pad = "".join("int pad_%s_%d() { return %d; }\n" % (f.lower(), i, i) for i in range(k % 3))
     if f == "A":
         return ('#pragma save_binary\n#include "H.h"\ninherit "%sB";\n%sstring a_tag() { return "A%d"; }\n'
-                'mixed tags() { return ({ a_tag(), H_TAG, b_tag(), c17_sver() }); }\n' % (base, pad, k))
+                'mixed tags() { return ({ a_tag(), H_TAG, b_tag(), g_tag(), c17_sver() }); }\n' % (base, pad, k))
     if f == "B":
-        return '%s%sstring b_tag() { return "B%d"; }\nmixed tags() { return ({ b_tag() }); }\n' % ("#pragma save_binary\n" if saveB else "", pad, k)
+        return ('%s#include "G.h"\n%sstring b_tag() { return "B%d"; }\nG_PAD\nstring g_tag() { return G_TAG; }\n'
+                'mixed tags() { return ({ b_tag(), g_tag() }); }\n' % ("#pragma save_binary\n" if saveB else "", pad, k))
     if f == "H":
         return '#define H_TAG "H%d"\n' % k
+    if f == "G":    # a header only B includes; every version changes B's function layout
+        return '#define G_TAG "G%d"\n#define G_PAD %s\n' % (k, " ".join("int pad_g_%d() { return %d; }" % (i, i) for i in range(k % 3)))
     raise ValueError(f)
 
 
@@ -54,7 +57,7 @@ def simul_text(k):
     return base[:i] + "// @C17-BEGIN@\n" + dummies + 'string c17_sver() { return "S%d"; }\n' % k + base[j:]
 
 
-FN = {"A": "A.c", "B": "B.c", "H": "H.h"}
+FN = {"A": "A.c", "B": "B.c", "H": "H.h", "G": "G.h"}
 
 
 def segments_of(hh, sid, private):
@@ -62,11 +65,11 @@ def segments_of(hh, sid, private):
     h, saveB = hh["h"], hh["saveB"]
     D = "c17/%s" % sid
     base = "/" + D + "/"
-    ver = {"A": 1, "B": 1, "H": 1, "S": 1}
+    ver = {"A": 1, "B": 1, "H": 1, "G": 1, "S": 1}
     now = 5
     pre = ["call /master set_policy save_binary #1", "call /obj/bn set_base " + base]
     seg = list(pre)
-    for f, t in (("A", 1), ("B", 2), ("H", 3)):
+    for f, t in (("A", 1), ("B", 2), ("H", 3), ("G", 0)):
         seg += ["hostwrite %s/%s %s" % (D, FN[f], hx(src(f, 1, base, saveB))), "utime %s/%s %d" % (D, FN[f], T(t))]
     if private:
         seg += ["utime simul_efun.c %d" % T(4)]
@@ -198,11 +201,11 @@ def run(tier, work):
     if not st["ok"]:
         raise vlib.Broken("Binaries violates NeverStale:\n" + st["out"][-2500:])
     print("TLC P1 Binaries/NeverStale: %d states, %d transitions, ok" % (st["states"], st["transitions"]))
-    for mut in ("noinclude", "nosimul"):
+    for mut in ("noinclude", "nosimul", "driver"):
         rc_, out_ = vlib.tlc(SPEC, "BinGen", "MC_%s.cfg" % mut, work, "p1" + mut, deadlock_off=True, timeout=900)
         if rc_ not in (12, 13):
             raise vlib.Broken("weakened use rule '%s' is not detected by the model (exit %d)" % (mut, rc_))
-    print("TLC P1 weakened use rules (noinclude, nosimul): violated as expected (sensitivity)")
+    print("TLC P1 weakened use rules (noinclude, nosimul) and the rule load_binary() implements (driver: known finding C17-F1): violated as expected")
     # ---- P2
     rnd = random.Random(vlib.SEED)
     hists, gs = vlib.generate(SPEC, "BinGen", "GenQuick.cfg" if tier == "quick" else "GenThorough.cfg", work, "p2a", timeout=3000)
@@ -242,12 +245,42 @@ def run(tier, work):
     print("RUN %d restart scenarios (%d driver boots) in %.1fs" % (len(shists), sum(1 + sum(1 for a in h["h"] if a["a"] == "restart") for h in shists), time.time() - t1))
     projs += sprojs
     allh += shists
-    accepted, nevents, rejects = vlib.validate_executions(SPEC, "BinTrace", "BinTrace.cfg", projs, work)
+    def sig_of(badi, upto):
+        b = projs[badi][upto] if upto < len(projs[badi]) else {"e": "?"}
+        sig = {"kind": "rejected", "event": b.get("e")}
+        if b.get("e") == "Load":
+            sig["p"] = b.get("p")
+            sig["usedA"] = b.get("usedA")
+            sig["with_simul_edit"] = any(a.get("f") == "S" for a in allh[badi]["h"])
+            sig["saveB"] = allh[badi]["saveB"]
+            # was the header that only the inherited program includes changed before this load?
+            nact = sum(1 for p_ in projs[badi][:upto + 1] if p_["e"] in ("Edit", "Touch", "Restart", "OldFormat", "Load"))
+            acts = [a_ for a_ in allh[badi]["h"] if not (a_["a"] == "oldformat" and False)]
+            sig["g_changed"] = any(a_["a"] in ("edit", "touch") and a_.get("f") == "G" for a_ in acts[:nact])
+        return b, sig
+
+    def drop_known(badi, upto):
+        b, sig = sig_of(badi, upto)
+        if b.get("e") == "Load" and vlib.match_known(PROP, sig):
+            verdict.add(sig, [json.dumps(allh[badi])], "known")
+            # the model and the driver now disagree about which binary of A exists: the rest of this history is not judged
+            del projs[badi][upto + 1:]
+            return True
+        return False
+
+    accepted, nevents, rejects = vlib.validate_executions(SPEC, "BinTrace", "BinTrace.cfg", projs, work, drop_if=drop_known)
     for badi, upto in rejects:
         b = projs[badi][upto] if upto < len(projs[badi]) else {"e": "?"}
         sig = {"kind": "rejected", "event": b.get("e")}
         if b.get("e") == "Load":
             sig["p"] = b.get("p")
+            sig["usedA"] = b.get("usedA")
+            # was the header that only the inherited program includes changed since the binary of A was last written?
+            gch = False
+            for a_ in allh[badi]["h"][:sum(1 for p_ in projs[badi][:upto + 1] if p_["e"] in ("Edit", "Touch", "Restart", "OldFormat", "Load")) ]:
+                if a_["a"] in ("edit", "touch") and a_.get("f") == "G":
+                    gch = True
+            sig["g_changed"] = gch
             sig["with_simul_edit"] = any(a.get("f") == "S" for a in allh[badi]["h"])
             sig["saveB"] = allh[badi]["saveB"]
         verdict.add(sig, [json.dumps(allh[badi])] + [json.dumps(p) for p in projs[badi][:upto + 1]],
